@@ -7,6 +7,7 @@ import (
 	"fmt"
 	"os"
 	"os/exec"
+	"path"
 	"runtime"
 	"runtime/pprof"
 	"sort"
@@ -61,7 +62,11 @@ func Main(all []*Scenario) {
 		fPicks   = flag.String("picks", "", "run once with these comma-separated picks and print the log")
 	)
 	fProf := flag.String("cpuprofile", "", "write a CPU profile")
+	fKnown := flag.String("known", "", "comma-separated glob patterns scenario:clause of known findings: they are reported but do not stop the bound iteration")
 	flag.Parse()
+	if *fKnown != "" {
+		knownGlobs = strings.Split(*fKnown, ",")
+	}
 	runtime.GOMAXPROCS(2)
 	if *fProf != "" {
 		f, _ := os.Create(*fProf)
@@ -334,7 +339,7 @@ func exploreScenario(sc *Scenario, b Bounds, tier string, workers int, verbose b
 			}
 		}
 		last = st
-		if !st.Exhaustive || len(st.Found) > 0 {
+		if !st.Exhaustive || hasUnknown(st.Found) {
 			break
 		}
 	}
@@ -462,4 +467,41 @@ func exploreAtBound(sc *Scenario, bound int, b Bounds, tier string, workers int,
 	}
 	st.Found = ff
 	return st
+}
+
+var knownGlobs []string
+
+// hasUnknown: is there a found violation that is not a listed known finding?
+func hasUnknown(found []Found) bool {
+	for _, f := range found {
+		k := false
+		for _, g := range knownGlobs {
+			if ok, _ := path.Match(g, f.Scenario+":"+f.Clause); ok || globMatch(g, f.Scenario+":"+f.Clause) {
+				k = true
+			}
+		}
+		if !k {
+			return true
+		}
+	}
+	return false
+}
+
+// globMatch: fnmatch-like, '*' matches any run of characters (including '/').
+func globMatch(pat, s string) bool {
+	if pat == "" {
+		return s == ""
+	}
+	if pat[0] == '*' {
+		for i := 0; i <= len(s); i++ {
+			if globMatch(pat[1:], s[i:]) {
+				return true
+			}
+		}
+		return false
+	}
+	if s == "" || (pat[0] != '?' && pat[0] != s[0]) {
+		return false
+	}
+	return globMatch(pat[1:], s[1:])
 }
